@@ -525,43 +525,88 @@ def own_page_h2(rec):
 # classification of genuine findings (conditions on the input / history only)
 # ----------------------------------------------------------------------------------------------------------------------
 
-WS_TARGET = {"sp-in-path", "sp-http-version-in-path", "tab-in-path", "del-in-path", "sp-in-method", "lowercase-method"}
+def wire_facts_h1_request(data: bytes):
+    """Facts about the bytes mitmproxy wrote on ONE HTTP/1 upstream connection (an h2 client gets one connection per request).
+    Read straight off the wire with bytes operations only -- the mechanisms below are decided from these, per exchange."""
+    head, sep, after = data.partition(b"\r\n\r\n")
+    lines = head.split(b"\r\n")
+    rl = lines[0] if lines else b""
+    toks = rl.split(b" ")
+    names = [l.split(b":", 1)[0].strip().lower() for l in lines[1:] if b":" in l]
+    cl = [l.split(b":", 1)[1].strip() for l in lines[1:] if b":" in l and l.split(b":", 1)[0].strip().lower() == b"content-length"]
+    target = toks[1] if len(toks) >= 2 else b""
+    return {
+        # more or fewer than three SP-separated tokens, or HTAB / DEL / other control octets inside the request line
+        "ws_in_request_line": bool(rl) and (len(toks) != 3 or any(c <= 0x20 or c == 0x7F for t in toks for c in t)),
+        "absolute_form_target": bool(re.match(rb"^[A-Za-z][A-Za-z0-9+.\-]*://", target)),
+        # complete head without Content-Length / Transfer-Encoding, yet octets follow it
+        "unframed_body": bool(sep) and b"content-length" not in names and b"transfer-encoding" not in names and len(after) > 0,
+        # complete head announcing N > 0 octets of which fewer than N follow
+        "cl_exceeds_bytes_written": bool(sep) and len(cl) == 1 and cl[0].isdigit() and b"transfer-encoding" not in names and int(cl[0]) > len(after),
+        "has_chunked_te": b"transfer-encoding" in names,
+    }
+
+
+def wire_facts_h1_responses(down: bytes, tag: bytes | None = None):
+    """Facts about the bytes written to an HTTP/1 client; with `tag`, only about the response head carrying that x-tag."""
+    heads = [m for m in re.finditer(rb"HTTP/1\.[01] ([^\r\n]*)\r\n((?:[^\r\n]+\r\n)*)\r\n", down)]
+    facts = {"status_not_three_digits": False, "cl_exceeds_bytes_before_next_head": False}
+    for i, m in enumerate(heads):
+        fields = m.group(2).lower()
+        if tag is not None and b"x-tag: " + tag.lower() not in fields:
+            continue
+        code = m.group(1).split(b" ", 1)[0]
+        if not re.fullmatch(rb"[0-9]{3}", code):
+            facts["status_not_three_digits"] = True
+        mcl = re.search(rb"(?:^|\r\n)content-length: *([0-9]+)\r\n", fields)
+        nxt = heads[i + 1].start() if i + 1 < len(heads) else len(down)
+        if mcl and b"transfer-encoding" not in fields and int(mcl.group(1)) > nxt - m.end():
+            facts["cl_exceeds_bytes_before_next_head"] = True
+    return facts
 
 
 def classify(kind, info):
+    """Mechanism of a violation.  Decided per exchange from what is observable on the wire of THAT exchange (`wire` = facts about
+    the upstream connection that carried it, `down` = facts about the client-bound response), plus the exception sites and which
+    kind of message was actually sent -- never from features of sibling exchanges, seeds or exception messages."""
     pair = info.get("pair")
-    qf = set(info.get("req_feats", ()))
-    rf = set(info.get("resp_feats", ()))
     exc = info.get("exc_sites", set())
+    wire = info.get("wire") or {}
+    down = info.get("down") or {}
     up_kinds = ("h1-upstream-not-exactly-one-request", "upstream-request-differs")
-    # (c) trailers towards an HTTP/1 peer: Http1Client/Http1Server.send raise AssertionError (no branch for *Trailers events);
-    #     later events of the same exchange then hit @expect assertions
-    if "AssertionError@_http1.py:send" in exc and exc <= {"AssertionError@_http1.py:send", "AssertionError@utils.py:_check_event_type"}:
-        if ("req-trailers" in qf and pair == "h2h1") or ("resp-trailers" in rf and pair == "h1h2"):
-            if kind in ("layer-exception", "valid-request-not-answered", "valid-request-not-forwarded", "h1-client-bytes-not-a-response-sequence", "downstream-response-differs"):
-                return "h2-trailers-towards-http1-peer-unhandled"
-            if kind == "client-h2-rejects-proxy-bytes" and info.get("only_body_length_errors"):
-                return "h2-trailers-towards-http1-peer-unhandled"  # the escaped exception also drops the rest of the event being processed (response data)
-    # (a) SP / HTAB / DEL inside :path or :method (legal octets of an HTTP/2 field value) are copied into the HTTP/1 request line
-    if pair == "h2h1" and kind in up_kinds and qf & {"sp-in-path", "sp-http-version-in-path", "tab-in-path", "del-in-path", "sp-in-method"}:
-        return "h2-request-target-or-method-with-whitespace-reaches-http1-request-line"
-    # (a') :path in absolute-form is copied into the HTTP/1 request line, where its authority overrides Host (RFC 9112 3.2.2)
-    if pair == "h2h1" and kind == "upstream-request-differs" and "path-absolute-uri" in qf and info.get("diff_keys") == {"authority", "path"}:
-        return "h2-path-in-absolute-form-overrides-authority-at-http1-origin"
-    # (d) content-length > 0 on a HEADERS frame that also ends the stream (hyper-h2 only checks the length when DATA arrives)
-    if "cl-positive-end-stream-on-headers" in qf and pair == "h2h1" and kind in up_kinds:
-        return "h2-request-content-length-without-data-forwarded-to-http1"
-    if "cl-positive-end-stream-on-headers" in rf and pair == "h1h2" and kind in ("h1-client-bytes-not-a-response-sequence", "downstream-response-differs"):
-        return "h2-response-content-length-without-data-forwarded-to-http1"
-    # (b) HTTP/2 request with DATA but without content-length: HTTP/1 head is emitted without any framing, the body follows raw
-    if pair == "h2h1" and kind in up_kinds + ("valid-request-not-answered",) and info.get("h2_body_without_cl"):
+
+    # (c) trailers towards an HTTP/1 peer: Http1Client/Http1Server.send raise AssertionError (no branch for *Trailers events); later
+    #     events of the same connection then hit @expect assertions and the rest of the event being processed is dropped
+    if "AssertionError@_http1.py:send" in exc and exc <= {"AssertionError@_http1.py:send", "AssertionError@utils.py:_check_event_type"} and info.get("trailers_sent_towards_h1"):
+        if kind in ("layer-exception", "valid-request-not-answered", "valid-request-not-forwarded", "h1-client-bytes-not-a-response-sequence", "downstream-response-differs"):
+            return "h2-trailers-towards-http1-peer-unhandled"
+        if kind == "client-h2-rejects-proxy-bytes" and info.get("only_body_length_errors"):
+            return "h2-trailers-towards-http1-peer-unhandled"
+
+    if pair == "h2h1" and kind in up_kinds + ("valid-request-not-answered",):
+        # (a) SP / HTAB / DEL of :path or :method visible in the HTTP/1 request line that was written          [fixed be347c8e3]
+        if wire.get("ws_in_request_line") and kind in up_kinds:
+            return "h2-request-target-or-method-with-whitespace-reaches-http1-request-line"
+        # (a') absolute-form request-target written although the client sent an :authority                      [fixed be347c8e3]
+        if wire.get("absolute_form_target") and kind == "upstream-request-differs" and info.get("diff_keys") == {"authority", "path"}:
+            return "h2-path-in-absolute-form-overrides-authority-at-http1-origin"
+        # (b) head without Content-Length/Transfer-Encoding followed by body octets: HTTP/2 DATA written unframed     [known]
+        if wire.get("unframed_body"):
+            return "h2-request-body-without-content-length-sent-unframed-to-http1"
+        # (d) head announces more octets than were written and the HTTP/2 stream had ended on HEADERS          [fixed 8eb744f3e]
+        if wire.get("cl_exceeds_bytes_written") and info.get("ended_on_headers") and kind in up_kinds:
+            return "h2-request-content-length-without-data-forwarded-to-http1"
+    #     (b) when that raw body is itself an HTTP/1 request the origin answers twice; the surplus response hits a finished stream
+    if pair == "h2h1" and kind == "layer-exception" and info.get("origin_saw_two_requests_after_unframed_head") and exc == {"AssertionError@utils.py:_check_event_type"}:
         return "h2-request-body-without-content-length-sent-unframed-to-http1"
-    #     ... and when that raw body is itself an HTTP/1 request the origin answers twice; the surplus response hits a finished stream
-    if pair == "h2h1" and kind == "layer-exception" and info.get("h2_body_without_cl") and info.get("origin_saw_two_requests") and exc == {"AssertionError@utils.py:_check_event_type"}:
-        return "h2-request-body-without-content-length-sent-unframed-to-http1"
-    # (e) :status that is not a three-digit code passes int() and is written into the HTTP/1 status line
-    if pair == "h1h2" and "status-nonnumeric" in rf and kind in ("h1-client-bytes-not-a-response-sequence", "downstream-response-differs"):
-        return "h2-response-status-not-three-digits-reaches-http1-status-line"
+
+    if pair == "h1h2" and kind in ("h1-client-bytes-not-a-response-sequence", "downstream-response-differs"):
+        # (d') response head announcing more octets than follow before the next response head                  [fixed 8eb744f3e]
+        if down.get("cl_exceeds_bytes_before_next_head") and info.get("origin_sent_cl_without_data"):
+            return "h2-response-content-length-without-data-forwarded-to-http1"
+        # (e) status line whose code is not three digits                                                        [fixed e0bd5b42e]
+        if down.get("status_not_three_digits"):
+            return "h2-response-status-not-three-digits-reaches-http1-status-line"
     return None
 
 
@@ -684,12 +729,18 @@ def run_case(ctx, opts):
         ctx.seen("layer_exceptions", f"{e[0]}@{e[1]}")
     req_feats = sorted(set().union(*[q["feats"] for q in reqs]))
     resp_feats = sorted(set().union(*[rs["feats"] | set((rs["adv"] or {}).get("feats", ())) for rs in responses.values()])) if responses else []
+    up_wire = {id(p): wire_facts_h1_request(bytes(p.received)) for _, p in origin_h1}
+    up_bytes_all = b"".join(bytes(p.received) for _, p in origin_h1)
     info = {
-        "pair": pair, "req_feats": req_feats, "resp_feats": resp_feats, "exc_sites": {f"{e[0]}@{e[1]}" for e in d.exceptions},
-        # some HTTP/2 request carried DATA but no content-length field (legal in HTTP/2: the framing layer delimits the body)
-        "h2_body_without_cl": cv == "h2" and any(
-            (q["body"] and not q["declare_cl"]) if q["adv"] is None else (q["adv"]["data"] and not any(n == b"content-length" for n, _ in q["adv"]["block"])) for q in reqs
-        ),
+        "pair": pair, "exc_sites": {f"{e[0]}@{e[1]}" for e in d.exceptions},
+        # a message with trailers really was on its way to an HTTP/1 peer: request with trailers whose head reached an HTTP/1 origin,
+        # or an h2 origin that sent a trailers block to an HTTP/1 client's exchange
+        "trailers_sent_towards_h1": (pair == "h2h1" and any(q["trailers"] and q["adv"] is None and q["tag"] in up_bytes_all for q in reqs))
+        or (pair == "h1h2" and any(any(a[0] == "trailers" for a in acts) for acts in resp_sent.values() if isinstance(acts, list))),
+        "origin_saw_two_requests_after_unframed_head": any(up_wire[id(p)]["unframed_body"] and len(ref.parse_requests(bytes(p.received))[1]) > 1 for _, p in origin_h1),
+        "origin_sent_cl_without_data": any(
+            isinstance(acts, list) and len(acts) == 1 and acts[0][0] == "headers" and acts[0][2] and any(n == b"content-length" and v.isdigit() and int(v) > 0 for n, v in acts[0][1])
+            for acts in resp_sent.values()),
     }
     base = {"pair": pair, "mode": mode, "req_feats": req_feats, "resp_feats": resp_feats, "stream_req": stream_req, "stream_resp": stream_resp, "hooks": d.hook_names()[:40],
             "exceptions": [e[:2] for e in d.exceptions], "client_sent": (getattr(cpeer, "sent_bytes", None) or b"".join(s for s in getattr(cpeer, "segments", []) if isinstance(s, bytes)))[:1200]}
@@ -697,7 +748,6 @@ def run_case(ctx, opts):
     def viol(kind, extra, more=None):
         ctx.violation(kind, {**base, **extra}, classify(kind, {**info, **(more or {})}))
 
-    info["origin_saw_two_requests"] = any(len(ref.parse_requests(bytes(p.received))[1]) > 1 for _, p in origin_h1)
     ctx.count("layer.exception")
     if d.exceptions:
         viol("layer-exception", {"exc": [e[:3] for e in d.exceptions], "tb": d.exceptions[0][3][-600:]})
@@ -717,6 +767,7 @@ def run_case(ctx, opts):
 
     # ------------------------------------------------------------ upstream: what did the origin decode?
     up_by_tag = {}
+    up_wire_by_tag = {}
     untagged_up = []
     if sv == "h1":
         for conn, p in origin_h1:
@@ -732,8 +783,12 @@ def run_case(ctx, opts):
                     # turned out malformed after its head was streamed; an HTTP/1 recipient discards it
                     ctx.count("aborted_incomplete_then_close")
                     continue
+                for t in tags_here:
+                    up_wire_by_tag[t] = up_wire[id(p)]
                 if status != "ok" or rest or len(msgs) != 1:
-                    viol("h1-upstream-not-exactly-one-request", {"upstream": data[:900], "status": status, "n_messages": len(msgs), "rest_or_reason": _s(rest) if isinstance(rest, (bytes, bytearray)) else rest, "tags": sorted(tags_here)})
+                    ended_on_headers = any((by_tag[t]["adv"] or {}).get("end_on_headers") for t in tags_here)
+                    viol("h1-upstream-not-exactly-one-request", {"upstream": data[:900], "status": status, "n_messages": len(msgs), "rest_or_reason": _s(rest) if isinstance(rest, (bytes, bytearray)) else rest, "tags": sorted(tags_here), "wire": up_wire[id(p)]},
+                         {"wire": up_wire[id(p)], "ended_on_headers": ended_on_headers})
                     for t in tags_here:
                         up_by_tag.setdefault(t, None)
                     continue
@@ -775,7 +830,7 @@ def run_case(ctx, opts):
         if status == "incomplete" and client_closed_by_proxy:
             ctx.count("aborted_incomplete_then_close")
         elif status != "ok" or rest:
-            viol("h1-client-bytes-not-a-response-sequence", {"down": down[:900], "status": status, "rest_or_reason": _s(rest) if isinstance(rest, (bytes, bytearray)) else rest})
+            viol("h1-client-bytes-not-a-response-sequence", {"down": down[:900], "status": status, "rest_or_reason": _s(rest) if isinstance(rest, (bytes, bytearray)) else rest}, {"down": wire_facts_h1_responses(down)})
         finals = [m_ for m_ in msgs if not (100 <= m_["status"] < 200)]
         for i, q in enumerate(reqs):
             msg = next((m_ for m_ in finals if m_["for_request"] == i), None)
@@ -837,7 +892,7 @@ def run_case(ctx, opts):
                 if sv == "h2" and not got.get("complete"):
                     df.append(("upstream-stream-not-ended",))
                 if df:
-                    viol("upstream-request-differs", {"tag": tag, "diff": df})
+                    viol("upstream-request-differs", {"tag": tag, "diff": df}, {"wire": up_wire_by_tag.get(tag), "diff_keys": {x[0] for x in df}})
         else:
             # ---- adversarial request: rejected or forwarded faithfully
             ctx.count("adversarial.outcome")
@@ -873,7 +928,7 @@ def run_case(ctx, opts):
                 if sv == "h2" and not got.get("complete"):
                     df.append(("upstream-stream-not-ended",))
                 if df:
-                    viol("upstream-request-differs", {"tag": tag, "diff": df, "block": blk[:12]}, {"diff_keys": {x[0] for x in df}})
+                    viol("upstream-request-differs", {"tag": tag, "diff": df, "block": blk[:12]}, {"wire": up_wire_by_tag.get(tag), "diff_keys": {x[0] for x in df}, "ended_on_headers": q["adv"]["end_on_headers"]})
         outcomes.append("forwarded")
 
         # ---- response leg
@@ -884,7 +939,7 @@ def run_case(ctx, opts):
                 rejected_by_sibling = (raw_client or client_killed_by_side_finding) and client_outcome[tag] in ("goaway", "none", "reset", "partial")
                 upstream_killed = sv == "h2" and adv_resp and len(reqs) > 1 and client_outcome[tag] in ("own-error", "reset", "closed", "none")
                 if q["adv"] is None and not rejected_by_sibling and not upstream_killed:
-                    viol("valid-request-not-answered", {"tag": tag, "client_outcome": client_outcome[tag], "origin_sent": _s(resp_sent.get(tag)) if isinstance(resp_sent.get(tag), bytes) else resp_sent.get(tag)})
+                    viol("valid-request-not-answered", {"tag": tag, "client_outcome": client_outcome[tag], "origin_sent": _s(resp_sent.get(tag)) if isinstance(resp_sent.get(tag), bytes) else resp_sent.get(tag)}, {"wire": up_wire_by_tag.get(tag)})
                 continue
             ctx.count("down.semantics")
             df = diff_response(expected_response_sem(rs), down_by_tag[tag])
@@ -897,7 +952,7 @@ def run_case(ctx, opts):
                 elif cv == "h1":
                     ctx.count("trailers_dropped_cl_framed")
             if df:
-                viol("downstream-response-differs", {"tag": tag, "diff": df})
+                viol("downstream-response-differs", {"tag": tag, "diff": df}, {"down": wire_facts_h1_responses(bytes(d.out[client]), tag) if cv == "h1" else None})
         else:
             ctx.count("adversarial.outcome")
             if client_outcome[tag] != "response":
@@ -912,7 +967,7 @@ def run_case(ctx, opts):
             if set(rs["adv"]["feats"]) & set(RESP_CL_MUTATIONS):
                 df = [x for x in df if x[0] != "body"]  # self-contradicting block: see the request side
             if df:
-                viol("downstream-response-differs", {"tag": tag, "diff": df, "block": blk[:12]})
+                viol("downstream-response-differs", {"tag": tag, "diff": df, "block": blk[:12]}, {"down": wire_facts_h1_responses(bytes(d.out[client]), tag) if cv == "h1" else None})
             outcomes.append("resp-forwarded")
 
     hostile = bool(adv_req and any(q["adv"] for q in reqs)) or any(rs["adv"] for rs in responses.values())
